@@ -876,7 +876,9 @@ class MBXML:
                     + attributes
                     + (
                         (cls.write_uintvar(len(part.value)) + part.value)
-                        if len(part.value)
+                        # counted opaque data are written with their count also when empty,
+                        # only the zero-length token variants (length == 0) have no count
+                        if part.length is None or len(part.value)
                         else b""
                     )
                 )
